@@ -32,6 +32,9 @@ use super::*;
 // contracts PROVED in unit int_div_ops
 //@@ SIG integer/div_glue/normalize.rs
 //@@ SIG integer/div_glue/div_rem_unshifted_in_place.rs
+// contracts PROVED in units int_div_word / int_div_dword
+//@@ SIG integer/div/rem_by_word.rs
+//@@ SIG integer/div/rem_by_dword.rs
 /// integer/src/div/mod.rs :: memory_requirement_exact: `assert!(lhs_len >= rhs_len && rhs_len >= 2)`, opaque Layout
 #[verifier::external_body]
 pub fn memory_requirement_exact(lhs_len: usize, rhs_len: usize) -> (r: Layout)
@@ -52,6 +55,14 @@ broadcast use {crate::buffer_stub::ax_buffer_inv, crate::repr_stub::ax_repr_of};
 //@@ FN integer/gcd_ops/gcd_ext_dword.rs
 //@@ FN integer/gcd_ops/gcd_ext_large_dword.rs
 //@@ FN integer/gcd_ops/gcd_ext_large.rs
+//@@ FN integer/gcd_ops/gcd_large_dword.rs
+//@@ FN integer/gcd_ops/gcd_large.rs
+// trait-impl methods hoisted to free functions (rule D2, renamed)
+//@@ FN integer/gcd_ops/typed_gcd_rr.rs
+//@@ FN integer/gcd_ops/typed_gcd_ext_rr.rs
+//@@ FN integer/gcd_ops/typed_gcd_ext_vr.rs
+//@@ FN integer/gcd_ops/typed_gcd_ext_rv.rs
+//@@ FN integer/gcd_ops/typed_gcd_ext_vv.rs
 }
 }
 } // verus!
